@@ -625,7 +625,7 @@ func C18() *check.Property {
 		Patterns: cat(CorePatterns, PluginPkgs),
 		Scope:    scope,
 		Rules: []check.Rule{ruleStableMeansStable(), ruleNoInputMutation(), ruleNoPostDeliveryMutation(), ruleFlavourAgreement(),
-			ruleErrResultUsed(), ruleRelease(), ruleCtxProvenance(), ruleStateLevel(), ruleErrPropagation(), ruleUserFnContext(), ruleFlushBeforeTerminal(), ruleBodyTerminates(), ruleTerminalPropagation(), ruleDeadEmission(), ruleObservableParamUsed(), ruleLateEmission(), ruleSlotCtxArgument(), ruleCallbackCtxUsed(), ruleDeadContextStore(), ruleHomonymWrapper(), ruleIncorporateBeforeDecide(), ruleTwinAgreement(), ruleHomonymCalled(), ruleLiftResult(), ruleCapabilityWidening(), ruleReadDataBeforeError(), ruleFlushErrorChecked()},
+			ruleErrResultUsed(), ruleRelease(), ruleCtxProvenance(), ruleStateLevel(), ruleErrPropagation(), ruleUserFnContext(), ruleFlushBeforeTerminal(), ruleBodyTerminates(), ruleTerminalPropagation(), ruleDeadEmission(), ruleObservableParamUsed(), ruleLateEmission(), ruleSlotCtxArgument(), ruleCallbackCtxUsed(), ruleDeadContextStore(), ruleHomonymWrapper(), ruleIncorporateBeforeDecide(), ruleTwinAgreement(), ruleHomonymCalled(), ruleLiftResult(), ruleCapabilityWidening(), ruleReadDataBeforeError(), ruleFlushErrorChecked(), ruleReadLinePrefixUsed()},
 		Explanation: "Structural clauses only; equality of each emitted value with the wrapped function's result on all inputs is NOT decided. On the plugin packages the property names: an operator called Stable sorts with a stable algorithm (STABLE-MEANS-STABLE); " +
 			"no function that receives a slice writes through it or a derived sub-slice, including append onto it (NO-INPUT-MUTATION, taint over slicing, conversions and sub-slice-returning standard functions); an emitted slice is never the operator's reused buffer " +
 			"(NO-POST-DELIVERY-MUTATION, e.g. a read buffer allocated outside the loop); the byte flavour never classifies single bytes with unicode.Is* (FLAVOUR-AGREEMENT); and the core-contract rules are re-run with plugin scope: error results become Error notifications " +
@@ -634,15 +634,16 @@ func C18() *check.Property {
 		Assumptions: []string{"the documented aliasing behaviour of the standard library functions listed in the checker"},
 		Floors:      map[string]int{"stable_operators": 1, "slice_receiving_functions": 20, "unicode_classifications": 4, "acquisitions": 150, "lift_functions": 20, "lift_returns": 20, "io_param_assertions": 1},
 		Controls: map[string]string{
-			"plugins/sort/zz_verif_controls_c18.go":  pluginControl("rosort", []string{`"context"`, `"sort"`, `"github.com/samber/ro"`}, controlsC18Sort),
-			"plugins/bytes/zz_verif_controls_c18.go": pluginControl("robytes", []string{`"bytes"`, `"unicode"`}, controlsC18Bytes),
-			"zz_verif_controls_c03.go":               roControl(controlsC03),
-			"zz_verif_controls_c04.go":               roControl(controlsC04),
-			"zz_verif_controls_c05.go":               roControl(controlsC05),
-			"zz_verif_controls_c07.go":               roControl(controlsC07),
-			"zz_verif_controls_c09.go":               roControl(controlsC09 + controlsC09b),
-			"zz_verif_controls_c12.go":               roControl(controlsC12),
-			"zz_verif_controls_c18read.go":           roControl(controlsReadDataBeforeError + controlsFlushError),
+			"plugins/sort/zz_verif_controls_c18.go":    pluginControl("rosort", []string{`"context"`, `"sort"`, `"github.com/samber/ro"`}, controlsC18Sort),
+			"plugins/bytes/zz_verif_controls_c18.go":   pluginControl("robytes", []string{`"bytes"`, `"unicode"`}, controlsC18Bytes),
+			"zz_verif_controls_c03.go":                 roControl(controlsC03),
+			"zz_verif_controls_c04.go":                 roControl(controlsC04),
+			"zz_verif_controls_c05.go":                 roControl(controlsC05),
+			"zz_verif_controls_c07.go":                 roControl(controlsC07),
+			"zz_verif_controls_c09.go":                 roControl(controlsC09 + controlsC09b),
+			"zz_verif_controls_c12.go":                 roControl(controlsC12),
+			"plugins/stdio/zz_verif_controls_c18rl.go": pluginControl("rostdio", []string{`"bufio"`}, controlsReadLine),
+			"zz_verif_controls_c18read.go":             roControl(controlsReadDataBeforeError + controlsFlushError),
 		},
 	}
 }
